@@ -1,10 +1,13 @@
 import CoapVerif.Spec.Oscore
+import CoapVerif.Spec.OscoreSeq
 import CoapVerif.Model.Oscore
+import CoapVerif.Model.OscoreAssoc
 import CoapVerif.Driver.Codec
 /- Line-protocol driver for the OSCORE property C14: S's protected bytes / verdicts for the same
    inputs the C harness gets (harness/oscore.c), and M's helper outputs. -/
 -- DRIVER-OPS: osc => Coap.Driver.Oscore.oscStep
 -- DRIVER-OPS: tamper => Coap.Driver.Oscore.tamperStep
+-- DRIVER-OPS: oseq => Coap.Driver.Oscore.oseqStep
 -- DRIVER-OPS: optenc => Coap.Driver.Oscore.optencStep
 -- DRIVER-OPS: optdec => Coap.Driver.Oscore.optdecStep
 -- DRIVER-OPS: aad => Coap.Driver.Oscore.aadStep
@@ -107,6 +110,121 @@ def oscStep (w : List String) : String :=
           (if sb.isNone then "" else   -- no response to a request that was not accepted
            responses cl sv (hasObserve rm.opts) (sepMidOf newmid) sb (some (rm.token, cb)) sseq rest)
     | _, _, _ => "bad-input"
+  | _, _, _ => "bad-op"
+
+/-! ### `oseq`: a sequence of exchanges on one client / server pair (S: Spec/OscoreSeq.lean, transcript;
+M: Model/OscoreAssoc.lean, trace of the client's association store) -/
+
+structure SeqSt where
+  cseq : Nat
+  sseq : Nat
+  cst : Store                      -- S: the client's bindings
+  sst : Store                      -- S: the server's bindings
+  held : List Bytes
+  mas : List M.Oscore.Assoc        -- M: the client's `session->associations`
+  out : String
+  tr : String
+
+def showAssoc (full : Bool) (a : Option M.Oscore.Assoc) : String :=
+  match a with
+  | none => "none"
+  | some a =>
+    hexOrDash a.piv ++ (if full then "," ++ hexOrDash a.nonce ++ "," ++ hexOrDash a.aad else "") ++
+      "," ++ (if a.isObserve then "1" else "0")
+
+/-- M: does `coap_oscore_decrypt_pdu` accept response `m` under the association of its token?
+(AES-CCM is the oracle GnuTLS is on the implementation side) -/
+def mVerifies (cl : Ctx) (mas : List M.Oscore.Assoc) (m : Msg) : Bool :=
+  match M.Oscore.findAssoc mas m.token, oscoreValue m.opts with
+  | some a, some ov =>
+    match M.Oscore.decodeOptionValue ov with
+    | .ok cose =>
+      match M.Oscore.responseInputs cl.alg cl.commonIV cl.sid cl.rid a cose.piv with
+      | .ok (n, ad) =>
+        match aeadOpen aes128 cl.recipientKey n ad m.payload with
+        | some pt => (decPlain pt).isSome
+        | none => false
+      | _ => false
+    | _ => false
+  | _, _ => false
+
+/-- a datagram arrives at the client -/
+def seqDeliverC (cl : Ctx) (st : SeqSt) (tag : String) (dg : Bytes) : SeqSt :=
+  match Spec.decode .udp dg with
+  | none => { st with out := st.out ++ " " ++ tag ++ "=unparsable", tr := st.tr ++ " d:unparsable" }
+  | some m =>
+    let (v, cst') := clientRecv aes128 cl st.cst m
+    let mas' := if (oscoreValue m.opts).isSome then M.Oscore.decryptAssoc st.mas m.token (mVerifies cl st.mas m) else st.mas
+    { st with cst := cst', mas := mas', out := st.out ++ " " ++ tag ++ "=" ++ showVerdict v,
+              tr := st.tr ++ " d:" ++ showAssoc false (M.Oscore.findAssoc mas' m.token) }
+
+def oseqSteps (cl sv : Ctx) (newmid : Option Nat) : (fuel : Nat) → SeqSt → List String → SeqSt
+  | 0, st, _ => st
+  | _, st, [] => st
+  | fuel + 1, st, "q" :: req :: how :: rest =>
+    match (bytesOfHex req).bind (Spec.decode .udp) with
+    | none => { st with out := st.out ++ " req=bad-input" }
+    | some rm =>
+      match clientSend aes128 cl st.cst rm st.cseq with
+      | none =>
+        oseqSteps cl sv newmid fuel
+          { st with out := st.out ++ " req=fail", tr := st.tr ++ " q:" ++ showAssoc true (M.Oscore.findAssoc st.mas rm.token) } rest
+      | some (pm, cst') =>
+        let dg := encodeUdp pm
+        let piv := pivBytes st.cseq
+        -- M: what `cose` holds after protecting: nonce, aad, partial_iv through libcoap's own helpers
+        let obsVal := match rm.opts.filter (fun o => o.1 = optObserve) |>.getLast? with
+          | some o => uintVal o.2
+          | none => 0
+        let (mas', trq) := match M.Oscore.generateNonce cl.commonIV cl.sid piv with
+          | .ok n =>
+            let mas' := M.Oscore.protectAssoc st.mas rm.token (M.Oscore.prepareAad (M.Oscore.prepareEAad cl.alg cl.sid piv)) n piv
+                          (hasObserve rm.opts) obsVal
+            (mas', showAssoc true (M.Oscore.findAssoc mas' rm.token))
+          | _ => (st.mas, "oob")
+        let st1 := { st with cseq := st.cseq + 1, cst := cst', mas := mas', out := st.out ++ " req=" ++ hexOrDash dg,
+                             tr := st.tr ++ " q:" ++ trq }
+        let st2 :=
+          if how.startsWith "d" then
+            match Spec.decode .udp dg with
+            | none => { st1 with out := st1.out ++ " ureq=unparsable" }
+            | some m =>
+              let (v, sst') := serverRecv aes128 sv st1.sst m
+              { st1 with sst := sst', out := st1.out ++ " ureq=" ++ showVerdict v }
+          else st1
+        oseqSteps cl sv newmid fuel st2 rest
+  | fuel + 1, st, "r" :: resp :: f :: how :: rest =>
+    match (bytesOfHex resp).bind (Spec.decode .udp) with
+    | none => { st with out := st.out ++ " resp=bad-input" }
+    | some rm =>
+      let fresh := f = "1" || hasObserve rm.opts
+      match serverSend aes128 sv st.sst rm (if fresh then some st.sseq else none) newmid with
+      | none => oseqSteps cl sv newmid fuel { st with out := st.out ++ " resp=fail" } rest
+      | some (pm, sst') =>
+        let dg := encodeUdp pm
+        let st1 := { st with sseq := if fresh then st.sseq + 1 else st.sseq, sst := sst', out := st.out ++ " resp=" ++ hexOrDash dg }
+        let st2 :=
+          if how = "d" then seqDeliverC cl st1 "uresp" dg
+          else if how = "dd" then seqDeliverC cl (seqDeliverC cl st1 "uresp" dg) "uresp2" dg
+          else if how = "h" ∧ st1.held.length < 8 then { st1 with held := st1.held ++ [dg], out := st1.out ++ " held" }
+          else st1
+        oseqSteps cl sv newmid fuel st2 rest
+  | fuel + 1, st, "f" :: idx :: rest =>
+    let st1 := match idx.toNat?.bind (fun i => st.held[i]?) with
+      | some dg => seqDeliverC cl st "late" dg
+      | none => { st with out := st.out ++ " late=none" }
+    oseqSteps cl sv newmid fuel st1 rest
+  | _, st, _ => { st with out := st.out ++ " bad-step" }
+
+/-- `oseq <C: 5> <S: 5> <cseq> <sseq> <newmid|-1> { q <req> <d|l> | r <resp> <piv 0|1> <d|l|h|dd> | f <idx> }*` -/
+def oseqStep (w : List String) : String :=
+  match paramsOf (w.take 5), paramsOf ((w.drop 5).take 5), w.drop 10 with
+  | some pc, some ps, cseq :: sseq :: newmid :: steps =>
+    match cseq.toNat?, sseq.toNat? with
+    | some cseq, some sseq =>
+      let st := oseqSteps (derive pc) (derive ps) (sepMidOf newmid) (steps.length + 1) ⟨cseq, sseq, [], [], [], [], "", ""⟩ steps
+      "M" ++ st.tr ++ " | S seq" ++ st.out
+    | _, _ => "bad-input"
   | _, _, _ => "bad-op"
 
 def fnv (s : String) : UInt32 :=
